@@ -512,17 +512,23 @@ package gldap
 //@   requires reqOK(r)
 //@   ensures  result != nil && fresh(result) && result.baseResponse != nil && result.messageID == msgID(r.message) && result.entry.DN == entryDN
 //@   ensures  forall(j, 0, len(result.entry.Attributes), result.entry.Attributes[j] != nil)
+//@   ensures  fresh(result.baseResponse) && (cap(result.entry.Attributes) > 0 ==> fresh(arrOf(result.entry.Attributes)))
 //@   panics false
+//@   modifies nothing
 //@   tags C04 C16
 //@ loop 1
 //@   invariant forall(j, 0, len(newAttrs), newAttrs[j] != nil)
+//@   invariant cap(newAttrs) > 0 ==> fresh(arrOf(newAttrs))
 //@   modifies cell(*EntryAttribute)@newAttrs
 //@ func (*gldap.SearchResponseEntry).AddAttribute
 //@   requires r != nil && forall(j, 0, len(r.entry.Attributes), r.entry.Attributes[j] != nil)
 //@   ensures  len(r.entry.Attributes) == old(len(r.entry.Attributes)) + 1 && forall(j, 0, old(len(r.entry.Attributes)), r.entry.Attributes[j] == old(r.entry.Attributes[j]))
 //@   ensures  r.entry.Attributes[old(len(r.entry.Attributes))] != nil && r.entry.Attributes[old(len(r.entry.Attributes))].Name == name && r.entry.Attributes[old(len(r.entry.Attributes))].Values == values
 //@   ensures  r.baseResponse == old(r.baseResponse) && r.entry.DN == old(r.entry.DN)
+//@   ensures  unchangedExcept("Entry.Attributes", r) && unchangedExcept("cell(*EntryAttribute)", old(arrOf(r.entry.Attributes)))
+//@   ensures  cap(r.entry.Attributes) > 0 ==> arrOf(r.entry.Attributes) == old(arrOf(r.entry.Attributes)) || fresh(arrOf(r.entry.Attributes))
 //@   panics false
+//@   modifies Entry.Attributes, cell(*EntryAttribute)
 //@   tags C04
 
 // ---- control constructors, mux registration (C16 totality) --------------------------------
